@@ -9,6 +9,7 @@ import (
 
 func init() {
 	vHarnesses["H_C20_w_paths"] = H_C20_w_paths
+	vHarnesses["H_C20_w_shortest"] = H_C20_w_shortest
 	vHarnesses["H_C20_w_values"] = H_C20_w_values
 	vHarnesses["H_C20_w_doc"] = H_C20_w_doc
 }
@@ -202,4 +203,20 @@ func H_C20_w_doc() {
 		vAssert(err == nil && calls == 2 && ok, "wrapper: XmlMsgsFromReader hands each document's Map to the handler, in order")
 	}
 	vCover("doc")
+}
+
+// shortest path with tag names of different lengths: fewest nodes, not fewest characters
+func H_C20_w_shortest() {
+	k1 := vNondetString(1, 7, "a")
+	k2 := vNondetString(1, 2, "b")
+	var deep interface{} = map[string]interface{}{"c": map[string]interface{}{"k": "2"}}
+	if vChoose(2) == 1 {
+		deep = []interface{}{map[string]interface{}{"c": map[string]interface{}{"k": "2"}}}
+	}
+	m := map[string]interface{}{k1: map[string]interface{}{"k": "1"}, k2: deep}
+	gs := PathForKeyShortest(m, "k")
+	ws := mxj.Map(m).PathForKeyShortest("k")
+	vAssert(ws == k1+".k", "wrapper: the core shortest path is the one with the fewest nodes")
+	vAssert(gs == ws, "wrapper: PathForKeyShortest returns the same path as Map.PathForKeyShortest when the minimum is unique")
+	vCover("shortest")
 }
